@@ -30,7 +30,16 @@ def standin_mstep_monitor(tier, seed):
         def monitored(cls, state, sufficient_statistics, *, burn_in, _log=log):
             pre = {n_: (None if state._values[n_] is None else state._values[n_]) for n_ in state.dag}
             orig(cls, state, sufficient_statistics, burn_in=burn_in)
+            _log.append(("__call__", bool(burn_in), None))
             if not burn_in:
+                # with memory: the dispersion rule uses the (averaged) statistics and the mean held BEFORE the step
+                for lat in ("tau", "xi"):
+                    if lat in sufficient_statistics and f"{lat}_sqr" in sufficient_statistics and f"{lat}_mean" in state.dag:
+                        s1 = tensor_value(sufficient_statistics[lat]).mean(dim=0)
+                        s2 = tensor_value(sufficient_statistics[f"{lat}_sqr"]).mean(dim=0)
+                        old = pre[f"{lat}_mean"]
+                        want = torch.sqrt(s2 - 2 * old * s1 + old ** 2)
+                        _log.append((f"{lat}_std (with memory)", state[f"{lat}_std"].clone(), want.reshape(state[f"{lat}_std"].shape).clone()))
                 return
             chk = {}
             for lat in ("tau", "xi"):
@@ -56,9 +65,16 @@ def standin_mstep_monitor(tier, seed):
             df = cohort(seed + 3, n_ind=8, n_ft=3, missing=0.25)
             m = model_factory(kind, **kw)
             with quiet():
-                m.fit(Data.from_dataframe(df), "mcmc_saem", seed=seed, n_iter=n_iter, progress_bar=False)
+                m.fit(Data.from_dataframe(df), "mcmc_saem", seed=seed, n_iter=n_iter, n_burn_in_iter=n_iter // 2, n_burn_in_iter_frac=None, progress_bar=False)
         finally:
             McmcSaemCompatibleModel.update_parameters = classmethod(orig)
+        flags = [g for p_, g, w in log if p_ == "__call__"]
+        want_flags = [k <= n_iter // 2 for k in range(1, n_iter + 1)]
+        if flags != want_flags:
+            bad = next((k + 1 for k, (a, b) in enumerate(zip(flags, want_flags)) if a != b), len(flags))
+            violations.append(dict(key=f"{kind} {kw}: the maximisation rule of the memory-less phase is used at iteration {bad} although that phase has {n_iter // 2} iterations (or the step does not run once per iteration)"))
+            break
+        log = [e for e in log if e[0] != "__call__"]
         for p_, got, want in log:
             evals += 1
             distinct.add((kind, str(kw), p_))
